@@ -1,18 +1,43 @@
 #!/bin/bash
 # Entry point for every registered command: rebuilds the harness from /repo's
 # current working tree, then runs it.   ./run.sh check C10 --tier quick
+# Checks that explore at lock/goroutine/channel granularity (C08 barrier, C09
+# lock level) run in a build where the files under exploration are rewritten
+# from the working tree and mounted with `go build -overlay` (nothing is
+# written to /repo).
 set -u
 cd "$(dirname "$0")"
 . ./env.sh
 export VERIF_DIR="$(pwd)"
 mkdir -p bin evidence replays
-if [ ! -f harness/go.sum ] || [ /repo/go.sum -nt harness/go.sum ]; then cp /repo/go.sum harness/go.sum; fi
-( cd harness && go build -o ../bin/verif ./cmd/verif ) >bin/build.log 2>&1
-rc=$?
-if [ $rc -ne 0 ]; then
+cp /repo/go.sum harness/go.sum 2>/dev/null
+prop=""
+case "${1:-}" in
+  check) prop="${2:-}";;
+  replay) prop=$(sed -n 's/.*"property": *"\([A-Z0-9]*\)".*/\1/p' "${2:-/dev/null}" | head -1);;
+esac
+variant=plain
+case "$prop" in C08|C09) variant=vsched;; esac
+fail_build() {
   # The tree under test does not build: nothing can be decided. Not an alarm.
   echo "HARNESS-BUILD-FAILED (see bin/build.log)" >&2
   tail -20 bin/build.log >&2
   exit 3
+}
+if [ "$variant" = vsched ]; then
+  if [ ! -x bin/rewrite ] || [ tools/rewrite/main.go -nt bin/rewrite ]; then
+    ( cd tools/rewrite && go build -o ../../bin/rewrite . ) >bin/build.log 2>&1 || fail_build
+  fi
+  ov=$(mktemp -d /var/tmp/verif-ov.XXXXXX)
+  trap 'rm -rf "$ov"' EXIT
+  if ./bin/rewrite -out "$ov" -shim "$(pwd)/harness/shim" pkg/kube/client.go pkg/kube/wait.go pkg/storage/driver/memory.go >"$ov/rewrite.log" 2>&1; then
+    ( cd harness && go build -tags vsched -overlay "$ov/overlay.json" -o ../bin/verif-vsched ./cmd/verif ) >bin/build.log 2>&1 || fail_build
+    ./bin/verif-vsched "$@"
+    exit $?
+  else
+    echo "HARNESS-CANNOT-INSTRUMENT: $(tail -1 "$ov/rewrite.log")" >&2
+    variant=plain   # the lock/goroutine-level parts report exhaustive:false
+  fi
 fi
-exec ./bin/verif "$@"
+( cd harness && go build -o ../bin/verif ./cmd/verif ) >bin/build.log 2>&1 || fail_build
+./bin/verif "$@"
